@@ -218,7 +218,12 @@ def gen_cases(ctx):
                             v = Fr(0)            # explicitly stored zero
                         ent.append([i, j, pair(v)])
             rng.shuffle(ent)
-            mats.append({'format': rng.choice(['csr', 'csr', 'coo', 'csr_unsorted']), 'entries': ent})
+            fmt = rng.choice(['csr', 'csr', 'coo', 'csr_unsorted'])
+            if fmt == 'csr_unsorted' and ent and rng.random() < 0.5:
+                for e in rng.sample(ent, min(len(ent), rng.randint(1, 2))):   # duplicated entries
+                    ent.insert(rng.randrange(len(ent) + 1),
+                               [e[0], e[1], pair(Fr(rng.randint(-64, 64), 8))])
+            mats.append({'format': fmt, 'entries': ent})
         if all(m['format'] == 'coo' for m in mats) or rng.random() < 0.5:
             pass
         add({'kind': 'align', 'shape': [nr, nc], 'mats': mats})
@@ -243,7 +248,7 @@ def gen_cases(ctx):
                         else:
                             v = Fr(float(Fr(rng.randint(-10 ** 6, 10 ** 6), rng.randint(1, 10 ** 6))))
                         ent.append([i, j, pair(v)])
-            mats.append({'format': rng.choice(['csr', 'coo']), 'entries': ent})
+            mats.append({'format': rng.choice(['csr', 'coo', 'csr_unsorted']), 'entries': ent})
         if not any(m['entries'] for m in mats):
             mats[0]['entries'].append([0, 0, pair(Fr(1, 2 ** 60))])
             mats[0]['entries'].append([0, 1, pair(-big)])
@@ -468,19 +473,27 @@ def coq_items(c, r):
     elif k == 'align':
         nr, nc = c['shape']
 
-        def sm(entries, summed):
+        def canon(entries):
             d = {}
             for e in entries:
                 key = e[0] * nc + e[1]
-                v = Fr(*e[2]) if summed else frs(e[2])
-                d[key] = d.get(key, Fr(0)) + v if summed else v
+                d[key] = d.get(key, Fr(0)) + Fr(*e[2])
             return lib.coq_list([f'({lib.coq_Z(k_)}, {q(v)})' for k_, v in sorted(d.items())])
-        ms = lib.coq_list([sm(m['entries'], True) for m in c['mats']])
-        outs = lib.coq_list([sm(o['entries'], False) for o in r['out']])
-        if c.get('exact_stream'):
-            out.append(('0', f'chk_align_tol {q(align_rounding_bound(c))} {lib.coq_Z(nr * nc)} {ms} {outs}'))
-        else:
-            out.append(('0', f'chk_align {lib.coq_Z(nr * nc)} {ms} {outs}'))
+
+        def stored(m):
+            # what align_nnz's CSR branch receives: 'csr' canonical, 'coo' after
+            # .tocsr() (sorted, duplicates summed), 'csr_unsorted' exactly as
+            # stored: rows ascending, the given order (and duplicates) inside a row
+            if m['format'] != 'csr_unsorted':
+                return canon(m['entries'])
+            ent = sorted(m['entries'], key=lambda e: e[0])      # stable
+            return lib.coq_list([f'({lib.coq_Z(e[0] * nc + e[1])}, {q(Fr(*e[2]))})' for e in ent])
+
+        def read_back(entries):
+            return lib.coq_list([f'({lib.coq_Z(e[0] * nc + e[1])}, {q(frs(e[2]))})' for e in entries])
+        ms = lib.coq_list([stored(m) for m in c['mats']])
+        outs = lib.coq_list([read_back(o['entries']) for o in r['out']])
+        out.append(('0', f'chk_align {ms} {outs}'))
     return out
 
 
@@ -550,8 +563,8 @@ def main(ctx):
         'item; signature table of parameter kinds) validated on every run by the correspondence',
         'numpy.linalg.eigh (LAPACK): premise `eigh_ok` of the theorems; in the correspondence the '
         'model runs with the decomposition LAPACK returned to femio (exact rationals)',
-        'hand model of scipy csr+csr / np.min / positional data subtraction for align_nnz '
-        '(Model.sadd, smin, reduce), pinned by the correspondence',
+        'hand model of align_nnz as of /repo 0213dd3 (Model.union_pattern, searchsorted, add_at, '
+        'place), pinned by the correspondence incl. non-canonical CSR inputs',
         'harness glue: float <-> exact rational (float.as_integer_ratio), canonical CSR '
         'construction, monkey-patched eigh recorder (harness/c17_impl.py)',
     ]
@@ -645,7 +658,7 @@ def main(ctx):
         n_items, failing, cfail = run_corr(ctx, cases, res)
         ctx.corr = {'cases': len(cases), 'coq_comparisons': n_items, 'disagreements': len(failing),
                     'tolerance': 'exact for a2m/m2a, eigenvalues, kept directions, lte, orient, '
-                                 'align_nnz (dyadic stream); 2^-51 * (n*D + max|v|) for the bit-exact align_nnz stream; '
+                                 'align_nnz (both streams, incl. the bit-exact one); '
                                  '2^-40 * 4 * max(1,|a|) for cross/matmul results; '
                                  '2^-40 * 16 * max(1,|1/(1+l)|,|1+l|)^2 for invert_strain'}
         if cfail:
